@@ -177,7 +177,7 @@ impl Property for C02 {
         ]
     }
     fn cases(&self, tier: Tier) -> usize {
-        tier.pick(6000, 40_000)
+        tier.pick(6000, 100_000)
     }
     fn strategy(&self, tier: Tier) -> BoxedStrategy<Case> {
         strategy(tier)
